@@ -148,6 +148,30 @@ def observe(cmd, args):
             obs = "|".join(["OK"] + read_all(m, reads))
         if data != before: obs += "|CALLER-DICT-MODIFIED"
         return obs
+    if cmd == "m.heap":
+        # from_raw(validate=False) on the caller's dict, then attribute reads interleaved with in-place changes made by the caller (to
+        # its dict and to the list objects in it) and by the holder of returned lists; finally the caller's dict as it is then
+        data, _, _, _ = decode_tokens([t for t in args[1:] if t[:1] in "KSLIDPQ"])
+        m = Metadata.from_raw(data, validate=False)
+        out, last = ["OK"], {}
+        for t in args[1:]:
+            tag, body = t[:1], t[1:]
+            if tag not in "Radmh": continue
+            key, *items = body.split("\x1f")
+            if tag == "R":
+                try:
+                    v = getattr(m, body); last[body] = v; out.append(render(v))
+                except InvalidMetadata as e: out.append("E:" + e.field)
+                except AttributeError:
+                    if body in SPEC_ADDED: raise
+                    out.append("!EXC:AttributeError")
+            elif tag == "a": data[key] = list(items)
+            elif tag == "d": data.pop(key, None)
+            elif tag == "m":
+                if isinstance(data.get(key), list): data[key][:] = items
+            elif tag == "h":
+                if isinstance(last.get(key), list): last[key][:] = items
+        return "|".join(out) + "#" + ";".join(show_s(k) + "=" + render(v) for k, v in data.items())
     # ------------------------------------------------------------------ direct laws on the implementation
     if cmd == "law.m.gating":
         # core-metadata spec table: a field with a valid value is accepted under version mv iff it was introduced at or before mv
